@@ -58,7 +58,7 @@ for pid in ALL:
 
 manifest = {
     "version": 1,
-    "setup_cmd": "cd /verif/harness && CARGO_NET_OFFLINE=true cargo build --offline --bin pvcheck",
+    "setup_cmd": "cd /verif/harness && CARGO_NET_OFFLINE=true cargo build --offline --bin pvcheck && (CARGO_NET_OFFLINE=true MIRIFLAGS='-Zmiri-disable-isolation -Zmiri-ignore-leaks' CARGO_TARGET_DIR=/verif/harness/target/miri-lane cargo +nightly miri run --offline -q -p pvmon --bin pvcheck -- mirilane C11 quick 1 nodirect '' || true)",
     "hooks": {
         "guard": "terohuttunen_proto_vulcan_verif",
         "enable": 'RUSTFLAGS="--cfg terohuttunen_proto_vulcan_verif" (set in /verif/harness/.cargo/config.toml; the harness depends on proto-vulcan by path = /repo)',
